@@ -2958,6 +2958,9 @@ impl LineBuf {
 
 								self.select_mode = Some(mode);
 							}
+							// A text object may have put the end behind the last character
+							end = end.min(self.cursor.cap().saturating_sub(1));
+							start = start.min(end);
 							self.select_range = Some(SelectRange::OneDim((start,end)));
 						}
 						SelectMode::Line(anchor) => {
